@@ -78,6 +78,13 @@ def check_condmerge(chk, quick):
 
 
 # ---------------------------------------------------------------- engine-level reply shapes
+KINDS = ["proc-short", "proc-zero", "proc-extra", "proc-extra-filter", "proc-extra-error", "proc-unknown",
+         "proc-poschange", "proc-posempty", "proc-mixed", "dest-empty", "dest-more", "dest-ooo",
+         "dest-wrongpos", "dest-closeerr", "dest-writeerr", "dest-openerr", "dest-teardownerr",
+         "src-emptypos", "src-duppos", "src-readerr", "src-openerr", "src-teardownerr",
+         "proc-openerr", "proc-teardownerr", "dlq-openerr", "dlq-ooo", "cond-short", "cond-extra"]
+
+
 def illformed(engine, rng, i):
     S, D, P = dpgen.src, dpgen.dst, dpgen.proc
     nrec = rng.randint(2, 5)
@@ -88,11 +95,8 @@ def illformed(engine, rng, i):
     dests = [D("d%d" % (k + 1), gated=False) for k in range(M)]
     procs = []
     feats = set()
-    kind = rng.choice(["proc-short", "proc-zero", "proc-extra", "proc-extra-filter", "proc-extra-error", "proc-unknown",
-                       "proc-poschange", "proc-posempty", "proc-mixed", "dest-empty", "dest-more", "dest-ooo",
-                       "dest-wrongpos", "dest-closeerr", "dest-writeerr", "dest-openerr", "dest-teardownerr",
-                       "src-emptypos", "src-duppos", "src-readerr", "src-openerr", "src-teardownerr",
-                       "proc-openerr", "proc-teardownerr", "dlq-openerr", "dlq-ooo", "cond-short", "cond-extra"])
+    # every shape class on every engine equally often (i // 2 walks the classes, i % 2 is the engine), the rest seeded
+    kind = KINDS[(i // 2) % len(KINDS)]
     feats.add(kind)
     where = rng.choice(["pipeline", "s1", "d1"])
     workers = rng.choice([1, 1, 2]) if engine == "v1" else 1
@@ -187,7 +191,7 @@ def run(tier, seed):
     rng = random.Random(seed)
     chk = dplib.DataPathCheck(PROP, tier, seed)
     ncases, ncomp = check_condmerge(chk, quick)
-    n = 220 if quick else 20000
+    n = 8 * 2 * len(KINDS) if quick else 20000     # quick: every class 8 times per engine
     scs = [illformed("v1" if i % 2 == 0 else "v2", rng, i) for i in range(n)]
     chk.run(scs, name="illformed")
     # "an error from any call": the outcome x fault matrix (stream ends with every special error identity, store
